@@ -44,6 +44,7 @@ def modes : List Mode := []
   ++ [Drv.Lib1.mode, Drv.Lib1.oracle]
   ++ [Drv.Lib2.mode]
   ++ Drv.C15Faults.modes
+  ++ Drv.C15FaultsTracks.modes
 
 def dispatch (line : String) : String :=
   match tokens line with
